@@ -4,6 +4,7 @@ mod common;
 mod e2;
 mod e3;
 mod e5;
+mod e6;
 mod linemodel;
 
 use common::*;
@@ -27,8 +28,45 @@ fn plan_for(prop: &str) -> Option<Plan> {
         "C07" => Plan { engine: "linebuf", quick_runs: 300_000, thorough_runs: 30_000_000, sweep_every: 1, note: "underlying writes are all-or-nothing (datagram semantics); short writes are not injected; sockets are stubs" },
         "C08" | "C09" | "C10" | "C11" | "C15" | "C16" => Plan { engine: "queue", quick_runs: 250_000, thorough_runs: 20_000_000, sweep_every: 0, note: "the wrapped sink is scripted; crossbeam's blocking paths are replaced by simulated waiting; capacity 0 (rendezvous) is excluded from every oracle except no-panic" },
         "C12" | "C13" | "C14" => Plan { engine: "sockets", quick_runs: 200_000, thorough_runs: 20_000_000, sweep_every: 0, note: "UDP/Unix datagram sockets are in-memory stubs (ledger + injectable result per send); the real kernel socket is not exercised" },
+        "C18" => Plan { engine: "holder", quick_runs: 300_000, thorough_runs: 30_000_000, sweep_every: 0, note: "the simulated execution is sequentially consistent; the memory-ordering half of the property is decided by a vector-clock happens-before tracker fed with the orderings written in the source (release sequences, acquire loads/RMWs, failed-CAS orderings, spawn/join edges)" },
         _ => return None,
     })
+}
+
+/// C18 second opinion (thorough tier): the unhooked SingletonHolder under Miri's seeded scheduler,
+/// weak-memory emulation and data-race detector. Independent of the simulator's own tracker.
+fn miri_c18(args: &BatchArgs) -> (serde_json::Value, Option<String>, Option<String>) {
+    let n: u64 = std::env::var("VERIF_MIRI_SEEDS").ok().and_then(|s| s.parse().ok()).unwrap_or(2048);
+    let start = args.seed % 1_000_000;
+    let dir = verif_root().join("miri-c18");
+    let t0 = std::time::Instant::now();
+    let out = std::process::Command::new("cargo")
+        .args(["+nightly", "miri", "run", "--offline"])
+        .current_dir(&dir)
+        .env("MIRIFLAGS", format!("-Zmiri-many-seeds={start}..{} -Zmiri-preemption-rate=0.1", start + n))
+        .env("CARGO_NET_OFFLINE", "true")
+        .env_remove("RUSTFLAGS")
+        .output();
+    let wall = t0.elapsed().as_secs_f64();
+    match out {
+        Err(e) => (serde_json::json!({"tool": "miri", "ran": false}), None, Some(format!("cannot run cargo miri: {e}"))),
+        Ok(o) => {
+            let text = format!("{}\n{}", String::from_utf8_lossy(&o.stdout), String::from_utf8_lossy(&o.stderr));
+            let tried = text.matches("Trying seed").count();
+            let ub = text.contains("Undefined Behavior") || text.contains("panicked at");
+            let j = serde_json::json!({"tool": "cargo +nightly miri run (-Zmiri-many-seeds, -Zmiri-preemption-rate=0.1)", "scenario": "miri-c18/src/main.rs: 2 racing setters + 2 readers on the unhooked SingletonHolder", "seed_range": [start, start + n], "seeds_tried": tried, "wall_s": wall, "exit": o.status.code(), "undefined_behaviour_or_assertion": ub});
+            if ub {
+                let path = verif_root().join("replays").join(format!("C18-miri-{start}.txt"));
+                let _ = std::fs::create_dir_all(path.parent().unwrap());
+                let _ = std::fs::write(&path, format!("reproduce: cd /verif/miri-c18 && MIRIFLAGS='-Zmiri-many-seeds={start}..{} -Zmiri-preemption-rate=0.1' cargo +nightly miri run --offline\n\n{}", start + n, text));
+                (j, Some(path.to_string_lossy().into_owned()), None)
+            } else if !o.status.success() {
+                (j, None, Some(format!("cargo miri failed without reporting UB: {}", text.chars().rev().take(400).collect::<String>().chars().rev().collect::<String>())))
+            } else {
+                (j, None, None)
+            }
+        }
+    }
 }
 
 fn main() {
@@ -68,12 +106,14 @@ fn main() {
                 sweep_every: plan.sweep_every,
                 level_note: plan.note.to_string(),
                 write_evidence: !has("--no-evidence"),
+                extra: if prop == "C18" && tier == Tier::Thorough && !has("--no-miri") { Some(miri_c18) } else { None },
                 max_wall_s: get("--max-wall").and_then(|s| s.parse().ok()).unwrap_or(if tier == Tier::Quick { 120 } else { 3300 }),
             };
             match plan.engine {
                 "linebuf" => run_batch::<e2::E2>(&ba),
                 "queue" => run_batch::<e3::E3>(&ba),
                 "sockets" => run_batch::<e5::E5>(&ba),
+                "holder" => run_batch::<e6::E6>(&ba),
                 _ => 2,
             }
         }
@@ -98,6 +138,7 @@ fn main() {
                 "linebuf" => replay::<e2::E2>(&rf, quiet),
                 "queue" => replay::<e3::E3>(&rf, quiet),
                 "sockets" => replay::<e5::E5>(&rf, quiet),
+                "holder" => replay::<e6::E6>(&rf, quiet),
                 other => {
                     eprintln!("HARNESS-ERROR: unknown engine {other}");
                     2
@@ -114,6 +155,7 @@ fn main() {
                 ("queue/C09", selftest::<e3::E3>("C09", seeds, 16, DEFAULT_SEED)),
                 ("sockets/C12", selftest::<e5::E5>("C12", seeds, 16, DEFAULT_SEED)),
                 ("sockets/C14", selftest::<e5::E5>("C14", seeds, 16, DEFAULT_SEED)),
+                ("holder/C18", selftest::<e6::E6>("C18", seeds, 16, DEFAULT_SEED)),
             ] {
                 match r {
                     Ok(n) => println!("selftest {name}: {n} seeds x 2 executions identical"),
